@@ -1,0 +1,24 @@
+//go:build verif
+
+package keyvalue
+
+import (
+	"context"
+	"fmt"
+
+	"github.com/anyproto/any-sync/commonspace/object/keyvalue/kvinterfaces"
+	"github.com/anyproto/any-sync/net/peer"
+)
+
+// VerifSyncWithPeer runs the private, synchronous pull exchange of a service
+// built with New() and returns its error. The public SyncWithPeer only
+// schedules the exchange on the limiter and reports failures to the log, so
+// neither completion nor the error is observable through the exported API.
+// No logic of its own: it only forwards to syncWithPeer.
+func VerifSyncWithPeer(ctx context.Context, svc kvinterfaces.KeyValueService, p peer.Peer) error {
+	k, ok := svc.(*keyValueService)
+	if !ok {
+		return fmt.Errorf("verif: not a *keyValueService: %T", svc)
+	}
+	return k.syncWithPeer(ctx, p)
+}
